@@ -127,6 +127,9 @@ def gen(cls, maxlen=8):
     # ---- hostile decode
     w('#include <stdexcept>')
     w('#include <Vector/BLF/Exceptions.h>')
+    w('#ifndef VP_DEC_CUTS')
+    w('#define VP_DEC_CUTS 3')
+    w('#endif')
     w('#ifndef VP_DEC_EXTRA')
     w('#define VP_DEC_EXTRA 8')
     w('#endif')
@@ -136,7 +139,7 @@ def gen(cls, maxlen=8):
     w('#ifdef VP_DEC_ALL')
     w('    uint32_t n = (uint32_t)vp_concrete(vp_choose(cap + 1, "stream_size"));')
     w('#else')
-    w('    uint32_t n = cap - (uint32_t)vp_concrete(vp_choose(3, "stream_cut")) * 5;   /* full, -5, -10 */')
+    w('    uint32_t n = cap - (uint32_t)vp_concrete(vp_choose(VP_DEC_CUTS, "stream_cut")) * 5;   /* full, -5, -10 */')
     w('#endif')
     w('    vp_bytes(buf1, cap, "in");')
     w('    buf1[0] = \'L\'; buf1[1] = \'O\'; buf1[2] = \'B\'; buf1[3] = \'J\';')
